@@ -345,6 +345,13 @@ def _halving_loop(fn: FuncInfo):
             return [(v, None)]
         if isinstance(e, ast.Attribute) and e.attr == 'itemsize':
             return [(b, 8 * b) for b in (1, 2, 4, 8)]
+        if isinstance(e, ast.Call) and norm(e.func) == 'getattr' and len(e.args) == 3 and isinstance(e.args[1], ast.Constant) \
+                and e.args[1].value in ('itemsize', 'bits'):
+            d = const_value(e.args[2])
+            if isinstance(d, int):
+                k = 1 if e.args[1].value == 'itemsize' else 8
+                return [(k * b, 8 * b) for b in (1, 2, 4, 8)] + [(d, None)]
+            return None
         if isinstance(e, ast.Attribute) and e.attr == 'bits':
             return [(8 * b, 8 * b) for b in (1, 2, 4, 8)]
         if isinstance(e, ast.Name) and e.id in alld:
@@ -565,6 +572,9 @@ def synthetic():
 
 
 MUTANTS = [
+    Mutant('halving-loop-starts-at-half-the-itemsize', CONV, 'gray2binary',
+           [('regex', r'    temp = xor\(num, num >> 32\)\n.*?    temp = xor\(temp, temp >> 1\)\n', '    nbits = getattr(getattr(num, "dtype", None), "itemsize", 64)\n    temp = num\n    shift = nbits // 2\n    while shift > 0:\n        temp = xor(temp, temp >> shift)\n        shift //= 2\n')],
+           r'C15\.b:gray2binary:width'),
     Mutant('guarded-cascade-step-off-by-one', CONV, 'gray2binary',
            [('replace', 'temp = xor(num, num >> 32)', 'largest = np.max(num)\n    temp = xor(num, num >> 32)'),
             ('replace', 'temp = xor(temp, temp >> 16)', 'if largest > 2 ** 16:\n        temp = xor(temp, temp >> 16)')], r'C15\.b:gray2binary:guard:16'),
